@@ -125,9 +125,53 @@ func runC10Retries(c *Cfg) {
 	})
 }
 
+// runC10Dwell: the context is cancelled while a node deep inside nested flows is busy (and stays busy for 120 ms
+// without looking at the context). A flat flow necessarily waits for the node it is running; the nested arrangement
+// must not return any earlier — nothing of the run may still be executing when Run returns.
+func runC10Dwell(c *Cfg) {
+	r := c.Rep
+	n := c.Pick(48, 600)
+	parallelN(c, n, 48, func(i int) {
+		rg := c.Rng("c10dwell", i)
+		var sc *scen.Scenario
+		for try := 0; try < 30; try++ {
+			sc = scen.GenFlowScenario(rg, scen.GenOpts{MaxNodes: 6, MaxActions: 3, MaxDepth: 4, MaxVisits: 3})
+			if sc.MaxNesting() >= 2 {
+				break
+			}
+		}
+		sc.Rewire, sc.Runs = nil, 1
+		path, mr := modelPath(sc)
+		if mr.Trunc || len(path) == 0 {
+			return
+		}
+		// pick a callback of a node that sits at nesting depth >= 1
+		var cands []int
+		for ki, d := range mr.Depths {
+			if d >= 2 {
+				cands = append(cands, ki)
+			}
+		}
+		if len(cands) == 0 {
+			return
+		}
+		sc.Inject = scen.Inject{Kind: "cancel-dwell", At: cands[rg.IntN(len(cands))]}
+		o := scen.NewExec(sc).RunOnce()
+		r.EvalN(1)
+		r.Count("dwell.cases", 1)
+		if o.CancelSeq >= 0 {
+			r.Nontrivial("dwell:" + scenSig(sc))
+		}
+		if o.ReturnedDuringCallback {
+			r.Violate("C10", "C10:returned-while-inner-node-running", fmt.Sprintf("the context was cancelled while callback #%d (a node inside a nested flow) was executing; Run returned (%q) while that callback was still running — a flat flow cannot return before the node it is running has returned", sc.Inject.At, o.ErrText), ScenCase{"cancel-while-inner-node-busy", sc})
+		}
+	})
+}
+
 func runC10(c *Cfg) {
 	r := c.Rep
 	defer runC10Retries(c)
+	defer runC10Dwell(c)
 	nr := c.Pick(20000, 1000000)
 	parallel(c, nr, func(i int) {
 		rg := c.Rng("c10", i)
@@ -175,6 +219,14 @@ func replayC10(c *Cfg, spec json.RawMessage) {
 	var cs ScenCase
 	if err := json.Unmarshal(spec, &cs); err != nil || cs.Scenario == nil {
 		fmt.Println("cannot parse case:", err)
+		return
+	}
+	if cs.Family == "cancel-while-inner-node-busy" {
+		o := scen.NewExec(cs.Scenario).RunOnce()
+		fmt.Printf("inject %+v: err=%q returned while the callback was still running: %v\n", cs.Scenario.Inject, o.ErrText, o.ReturnedDuringCallback)
+		if o.ReturnedDuringCallback {
+			c.Rep.Violate("C10", "C10:returned-while-inner-node-running", "Run returned while a node inside a nested flow was still executing", cs)
+		}
 		return
 	}
 	if cs.Family == "flow-retries" {
